@@ -2,7 +2,7 @@
 
 Proof obligations: Properties/C15.lean about Model/Units.lean (convert_units exactly as coded, over Rat) and Model/MixAlg.lean
 (add_extensive, cxxSolution::add/multiply, cxxMix::Add, add_solution, add_mix): unit_equivalence, water_scaling,
-map_order_irrelevant, redefinition_idempotent, mix_perm, self_mix, mix_water_scaling (all inputs) + kernel-evaluated
+map_order_irrelevant, redefinition_idempotent, mix_perm, self_mix, mix_water_scaling, mix_fraction_scaling (all inputs) + kernel-evaluated
 instances.
 Tie: (i) the real convert_units observed inside real initial-solution runs (BASIC callback + friend access) and the real
 add_mix / cxxSolution mixing constructor / multiply called on real stored solutions, against `pmodel units` at 1e-12
@@ -758,11 +758,11 @@ MANIFEST = dict(
          "per element, weight from master species / `as` formula incl. alkalinity-as-CaCO3 / -gfw, give the same totals map; also within "
          "the per-litre and per-kg-solution families when equivalents stay equivalents), unit_equivalence_kgw, alkalinity_as_CaCO3, "
          "gfw_override, water_scaling (+ molality invariance), map_order_irrelevant, convert_order_irrelevant, redefinition_idempotent, "
-         "convert_ignores_prior, convert_idempotent, read_mix_perm, read_mix_self, mix_perm, self_mix, mix_water_scaling; kernel-evaluated "
+         "convert_ignores_prior, convert_idempotent, read_mix_perm, read_mix_self, mix_perm, self_mix, mix_water_scaling, mix_fraction_scaling; kernel-evaluated "
          "instances. Correspondence: totals left by the real convert_units in real initial-solution runs, real add_mix / cxxSolution(mix) / "
          "multiply on real stored solutions vs pmodel units (1e-12 rel). Exploration: base/transformed input pairs on the real engine for "
-         "units, water factor 1e-3..1e3, line and block permutations, renumbering, repeated lines/blocks, SOLUTION_SPREAD, MIX reorder and "
-         "self-mix over speciation, batch, exchange, surface, gas, kinetics, mix (1e-8 rel, extensive × k).",
+         "units, water factor 1e-3..1e3, line and block permutations, renumbering, repeated lines/blocks, SOLUTION_SPREAD, MIX reorder, self-mix (split lines, copies, any total amount), common factor on all fractions, "
+         "nested mixing orders with SAVE vs the direct n-way mix — mixed analyses are not charge balanced and hold unequal water — over speciation, batch, exchange, surface, gas, kinetics, mix (1e-8 rel, extensive × k).",
     note="Trusted: harness/ph_units.cpp (friend access, BASIC callback), tools/gens/units.py (database reading of element weights, formula "
          "parser, spelling→canonical table cross-checked against the engine's report every run), comparison logic. Partial: check_units "
          "string canonicalisation and the formula parser are python-side tables tied by correspondence, not Lean models; invariance of the "
